@@ -2206,6 +2206,9 @@ def chained_logic(operator: TypingUnion[Type[LogicalOperator], OperatorOptimizer
             prev_operation = condition
             continue
         prev_operation = operator(prev_operation, condition)
+    if prev_operation is not None and not isinstance(prev_operation, SymbolicExpression):
+        # a single plain value (a bool: alternative(True) is the "otherwise" branch) is a condition like any other.
+        prev_operation = Literal(prev_operation)
     return prev_operation
 
 
